@@ -663,12 +663,37 @@ func TestVerif_C08(t *testing.T) {
 			}
 		}
 	}
+	// large, highly compressible payloads (compression ratios near the format's limits,
+	// buffers larger than any internal window): pipelines of <= 2 filters without Fletcher-32
+	// (no corruption enumeration), 1 MiB and 4 MiB of zeros / 0xFF / a period of 3
+	bigLengths := []int{1 << 20, 4 << 20}
+	for pi := range pipes {
+		if pipes[pi].hasF || len(pipes[pi].items) > 2 {
+			continue
+		}
+		for _, n := range bigLengths {
+			if n == 1<<20 && r.Thorough() {
+				continue // part of the thorough grid already
+			}
+			for _, c := range []int{0, 1, 3} {
+				pts = append(pts, point{pi, n, c})
+			}
+		}
+	}
+	r.Set("large_compressible_lengths", bigLengths)
 	// big points first so that the parallel tail is short
 	sort.SliceStable(pts, func(i, j int) bool { return pts[i].n > pts[j].n })
 	payloads := map[[2]int][]byte{}
 	for _, n := range lengths {
 		for c := range vfC08ContentNames {
 			payloads[[2]int{n, c}] = vfC08Payload(n, c)
+		}
+	}
+	for _, n := range bigLengths {
+		for _, c := range []int{0, 1, 3} {
+			if _, ok := payloads[[2]int{n, c}]; !ok {
+				payloads[[2]int{n, c}] = vfC08Payload(n, c)
+			}
 		}
 	}
 	results := make([]*vfC08Result, len(pts))
